@@ -105,9 +105,13 @@ func c11ParamFlow(e *Env) {
 		r.Check(okFlag && site != nil, "client.Start: the -p argument derives from opts.Params", pos,
 			"the spawned start command does not receive the caller's parameters")
 		// writer / reader agreement on the quoting of the -p argument
+		// the reader, by role: the repository function(s) the value of the start command's
+		// --params flag passes through on its way to dag.Load
 		reader := "none"
-		if rq := e.FnQuiet("cmd", "removeQuotes"); rq != nil {
-			reader = c11Decoding(rq)
+		for _, dec := range c11ParamDecoders(e) {
+			if k := c11Decoding(dec); k != "none" {
+				reader = k
+			}
 		}
 		agree := (writer == "plain-wrap" && reader == "strip-ends") || (writer == "go-quote" && reader == "unquote") || (writer == "none" && reader == "none")
 		r.Check(agree, "start parameters: the client's quoting of -p and the start command's unquoting agree", pos,
@@ -128,7 +132,8 @@ func c11ParamFlow(e *Env) {
 			for _, f := range ir.WithClosures(root) {
 				for _, ci := range ir.CallsIn(f, func(c *ssa.CallCommon) bool { return c.StaticCallee() == loadFn }) {
 					fl := &ir.Flow{C: e.C, Through: func(c *ssa.Call) []int {
-						if sc := c.Call.StaticCallee(); sc != nil && sc.Name() == "removeQuotes" {
+						// a decoding helper of the command package applied to the flag's value
+						if sc := c.Call.StaticCallee(); sc != nil && e.P.Funcs[sc] && sc.Pkg == sp && len(c.Call.Args) == 1 {
 							return []int{0}
 						}
 						return nil
@@ -149,6 +154,35 @@ func c11ParamFlow(e *Env) {
 				"the command does not load the DAG with the parameters given on its command line")
 		}
 	}
+}
+
+// c11ParamDecoders: the one-argument functions of package cmd that the start
+// command applies to the --params flag value before loading the DAG.
+func c11ParamDecoders(e *Env) []*ssa.Function {
+	sp := e.P.Pkg("cmd")
+	loadFn := e.FnQuiet(dagRel, "Load")
+	if sp == nil || loadFn == nil {
+		return nil
+	}
+	root := sp.Func("startCmd")
+	if root == nil {
+		return nil
+	}
+	var out []*ssa.Function
+	for _, f := range ir.WithClosures(root) {
+		for _, ci := range ir.CallsIn(f, func(c *ssa.CallCommon) bool { return c.StaticCallee() == loadFn }) {
+			v := ir.Resolve(ci.Common().Args[2])
+			for d := 0; d < 4; d++ {
+				c, ok := v.(*ssa.Call)
+				if !ok || c.Call.StaticCallee() == nil || !e.P.Funcs[c.Call.StaticCallee()] || len(c.Call.Args) != 1 {
+					break
+				}
+				out = append(out, c.Call.StaticCallee())
+				v = ir.Resolve(c.Call.Args[0])
+			}
+		}
+	}
+	return out
 }
 
 func containsStr(ss []string, x string) bool {
@@ -302,8 +336,21 @@ func c11OutputStore(e *Env) {
 	ex := e.Fn(schedRel, "(*Node).Execute")
 	if ex != nil {
 		n := 0
-		for _, f := range ir.WithClosures(ex) {
-			for _, ci := range ir.CallsIn(f, func(c *ssa.CallCommon) bool { return ir.IsCallTo(c, "(*sync.Map).Store") }) {
+		var exFns []*ssa.Function
+		for _, g := range e.staticClosure(ex) {
+			if rootFn(g).Package() == ex.Package() {
+				exFns = append(exFns, g)
+			}
+		}
+		for _, f := range exFns {
+			for _, ci := range ir.CallsIn(f, func(c *ssa.CallCommon) bool {
+				return ir.IsCallTo(c, "(*sync.Map).Store") || (c.StaticCallee() != nil && strings.HasSuffix(ir.CalleeName(c), "dag.SyncMap).Store"))
+			}) {
+				if !e.IsFieldRead(ci.Common().Args[0], nil, "OutputVariables") {
+					if fa, isFA := ci.Common().Args[0].(*ssa.FieldAddr); !isFA || !e.IsFieldRead(fa.X, nil, "OutputVariables") {
+						continue
+					}
+				}
 				n++
 				a := ci.Common().Args
 				key, val := a[1], a[2]
@@ -314,20 +361,34 @@ func c11OutputStore(e *Env) {
 					val = mi.X
 				}
 				okKey := e.IsFieldRead(key, nil, "Step.Output")
+				// NAME "=" TrimSpace(captured): a Sprintf("%s=%s", …) or a concatenation
 				okVal := false
-				if sc, ok := ir.Resolve(val).(*ssa.Call); ok && ir.IsCallTo(&sc.Call, "fmt.Sprintf") {
-					f, _ := ir.ConstString(sc.Call.Args[0])
-					tr := &ir.Tracer{C: e.C}
-					hasName, hasTrim := false, false
-					for _, l := range tr.Trace(sc.Call.Args[1]) {
-						if l.Kind == "field" && strings.HasSuffix(l.Name, "Step.Output") {
+				{
+					tr := &ir.Tracer{C: e.C, Through: map[string]bool{"fmt.Sprintf": true},
+						Up: func(f *ssa.Function) []ssa.CallInstruction {
+							if f == ex {
+								return nil
+							}
+							return e.StaticCallSites(f)
+						}}
+					hasName, hasTrim, hasEq, other := false, false, false, false
+					for _, l := range tr.Trace(val) {
+						switch {
+						case l.Kind == "field" && strings.HasSuffix(l.Name, "Step.Output"):
 							hasName = true
-						}
-						if l.Kind == "call" && l.Name == "strings.TrimSpace" {
+						case l.Kind == "call" && l.Name == "strings.TrimSpace":
 							hasTrim = true
+						case l.Kind == "const":
+							if cs, isS := ir.ConstString(l.V); isS && (cs == "=" || cs == "%s=%s") {
+								hasEq = true
+							} else if isS && cs != "" {
+								other = true
+							}
+						default:
+							other = true
 						}
 					}
-					okVal = f == "%s=%s" && hasName && hasTrim
+					okVal = hasName && hasTrim && hasEq && !other
 				}
 				r.Check(okKey, "Execute: captured output stored under the step's output name", e.InstrPos(ci), "the captured value is stored under a key other than the step's `output:` name")
 				r.Check(okVal, "Execute: stored value is NAME=TrimSpace(captured stdout)", e.InstrPos(ci), "the stored value is not `NAME=` followed by the trimmed captured standard output")
@@ -341,7 +402,13 @@ func c11OutputStore(e *Env) {
 	rg := e.Fn(schedRel, "NewExecutionGraphForRetry")
 	if rg != nil {
 		n := 0
-		for _, f := range ir.WithClosures(rg) {
+		var rgFns []*ssa.Function
+		for _, g := range e.staticClosure(rg) {
+			if rootFn(g).Package() == rg.Package() {
+				rgFns = append(rgFns, g)
+			}
+		}
+		for _, f := range rgFns {
 			for _, ci := range ir.CallsIn(f, func(c *ssa.CallCommon) bool { return ir.IsCallTo(c, "os.Setenv") }) {
 				n++
 				v := ir.Resolve(ci.Common().Args[1])
@@ -422,24 +489,28 @@ func c11OutputVisibility(e *Env) {
 	// handler nodes: store precedes the runner call in the handler loop
 	s := e.resolveSchedQuiet()
 	if s != nil && s.ok {
-		var store ssa.Instruction
-		for _, b := range s.Loop.Blocks {
-			for _, in := range b.Instrs {
-				if st, isS := in.(*ssa.Store); isS {
-					if fa, isFA := st.Addr.(*ssa.FieldAddr); isFA && ir.FieldNameOf(fa.X.Type(), fa.Field) == "OutputVariables" && e.IsFieldRead(st.Val, nil, "outputVariables") {
-						store = st
-					}
+		// in the scheduling function's handler loop (or a helper of it): the handler node's
+		// OutputVariables := the graph's map, before the call that runs that node
+		ok := false
+		for _, lf := range sortedFns(s.LoopFns) {
+			var stores []ir.StoreEvent
+			for _, ev := range e.C.FieldStores(lf, "OutputVariables") {
+				if ev.Val != nil && e.IsFieldRead(ir.Deep(ev.Val), nil, "outputVariables") {
+					stores = append(stores, ev)
 				}
 			}
-		}
-		runner := e.FnQuiet(schedRel, "(*Scheduler).runHandlerNode")
-		ok := false
-		for _, ci := range ir.CallsIn(s.Loop, func(c *ssa.CallCommon) bool { return c.StaticCallee() == runner && runner != nil }) {
-			if store != nil && ir.Precedes(store, ci) {
-				// same handler node
-				p, okp := e.C.StorePath(store.(*ssa.Store).Addr)
-				if okp && len(ci.Common().Args) >= 3 && sameNode(p.Root, ci.Common().Args[2]) {
-					ok = true
+			for _, ci := range ir.CallsIn(lf, func(c *ssa.CallCommon) bool {
+				return c.StaticCallee() != nil && e.ReachesRepo(c.StaticCallee(), func(x *ssa.Function) bool { return x == s.Execute })
+			}) {
+				for _, st := range stores {
+					if !ir.Precedes(st.Site, ci) {
+						continue
+					}
+					for _, a := range ci.Common().Args {
+						if sameNode(st.Root, a) {
+							ok = true
+						}
+					}
 				}
 			}
 		}
@@ -456,13 +527,34 @@ func c11OutputVisibility(e *Env) {
 				continue
 			}
 			ok := false
-			for _, ci := range ir.CallsIn(f, func(c *ssa.CallCommon) bool { return ir.IsCallTo(c, "(*sync.Map).Range") }) {
-				if fa, isFA := ci.Common().Args[0].(*ssa.FieldAddr); isFA && e.IsFieldRead(fa.X, nil, "OutputVariables") {
-					// the callback appends to cmd.Env
-					if mc, isMC := ci.Common().Args[1].(*ssa.MakeClosure); isMC {
-						for _, ev := range e.C.FieldStores(mc.Fn.(*ssa.Function), "Env") {
-							if ev.Site != nil {
+			var ctorFns []*ssa.Function
+			for _, g := range e.staticClosure(f) {
+				if rootFn(g).Package() == sp {
+					ctorFns = append(ctorFns, g)
+				}
+			}
+			envStored := false
+			for _, g := range ctorFns {
+				if len(e.C.FieldStores(g, "Env")) > 0 {
+					envStored = true
+				}
+			}
+			for _, g := range ctorFns {
+				for _, ci := range ir.CallsIn(g, func(c *ssa.CallCommon) bool { return ir.IsCallTo(c, "(*sync.Map).Range") }) {
+					if fa, isFA := ci.Common().Args[0].(*ssa.FieldAddr); isFA && e.IsFieldRead(fa.X, nil, "OutputVariables") {
+						// the callback collects the entries (appends) and the environment is stored into cmd.Env
+						if mc, isMC := ci.Common().Args[1].(*ssa.MakeClosure); isMC && envStored {
+							cb := mc.Fn.(*ssa.Function)
+							if len(ir.CallsIn(cb, func(c *ssa.CallCommon) bool { _, isA := isAppendCommon(c); return isA })) > 0 {
 								ok = true
+							}
+						}
+						// the callback appends to cmd.Env
+						if mc, isMC := ci.Common().Args[1].(*ssa.MakeClosure); isMC {
+							for _, ev := range e.C.FieldStores(mc.Fn.(*ssa.Function), "Env") {
+								if ev.Site != nil {
+									ok = true
+								}
 							}
 						}
 					}
@@ -473,6 +565,11 @@ func c11OutputVisibility(e *Env) {
 	}
 }
 
+func isAppendCommon(c *ssa.CallCommon) (*ssa.Builtin, bool) {
+	b, ok := c.Value.(*ssa.Builtin)
+	return b, ok && b.Name() == "append"
+}
+
 func (e *Env) resolveSchedQuiet() *Sched {
 	// resolveSched records undecided obligations under the current rule on failure; acceptable here
 	return e.resolveSched()
@@ -480,9 +577,13 @@ func (e *Env) resolveSchedQuiet() *Sched {
 
 func c11Capture(e *Env) {
 	r := e.R
-	fn := e.Fn(schedRel, "(*Node).setupExec")
+	fn := e.nodeRoles().Wire
 	ex := e.Fn(schedRel, "(*Node).Execute")
 	if fn == nil || ex == nil {
+		if fn == nil {
+			e.R.Rule("C11.capture-is-stdout-only", "VF", "stderr writer does not include the capture pipe", 1)
+			e.R.Unknown("the function wiring the executor's output", "-", "no Node method invokes SetStdout")
+		}
 		return
 	}
 	r.Rule("C11.capture-is-stdout-only", "VF", "stderr writer does not include the capture pipe", 1)
@@ -747,6 +848,10 @@ func c11Classify(e *Env, v ssa.Value, depth int) (kind, what string, site ssa.Va
 	case *ssa.Alloc:
 		return "local", x.Comment, x
 	case *ssa.FieldAddr:
+		// a field of an object allocated for this execution is as fresh as a local
+		if k, w, site := c11Classify(e, x.X, depth+1); k == "local" {
+			return "local", w + "." + ir.FieldNameOf(x.X.Type(), x.Field), site
+		}
 		return "field", ir.FieldNameOf(x.X.Type(), x.Field), x
 	case *ssa.UnOp:
 		if x.Op == token.MUL {
